@@ -20,8 +20,14 @@ class RemovableDisposable(abc.DisposableBase):
 
     def dispose(self) -> None:
         self.observer.dispose()
-        if not self.subject.is_disposed and self.observer in self.subject.observers:
-            self.subject.observers.remove(self.observer)
+        # The subject clears its observers under its lock when it terminates on
+        # another thread: test and remove atomically.
+        with self.subject.lock:
+            if (
+                not self.subject.is_disposed
+                and self.observer in self.subject.observers
+            ):
+                self.subject.observers.remove(self.observer)
 
 
 class QueueItem(NamedTuple):
